@@ -91,6 +91,33 @@ def check_graph(ctx, case):
         rec['rpo'] = order
         for clause in sorted({c for c, _ in probs}):
             ctx.fail('%s:%s' % (clause, cls), rec, '; '.join(d for c, d in probs if c == clause)[:600])
+        return
+    # history: the same Graph object is modified (one more edge between existing nodes, normal or catch, derived
+    # deterministically from the case) and numbered again: the new numbering must be valid for the *modified* graph.
+    h = (n * 131 + sum((a * 31 + b * 17 + k * 7 + i) for i, (a, b, k) in enumerate(case['edges']))) & 0xffff
+    if n < 2 or h % 2:
+        return
+    a, b, k = (h >> 1) % n, (h >> 5) % n, (h >> 9) % 2
+    extra = [a, b, k]
+    case2 = {'n': n, 'edges': list(case['edges']) + [extra], 'family': case.get('family', '?')}
+    succ2 = successor_order(case2)
+    if succ2 == succ:
+        return
+    try:
+        (g.add_catch_edge if k else g.add_edge)(nodes[a], nodes[b])
+        g.compute_rpo()
+        num2 = {i: nodes[i].num for i in range(n)}
+        order2 = [index.get(x, -1) for x in g.rpo]
+    except Exception:
+        ctx.fail('renumber:exception:%s' % cls, dict(rec, added_edge=extra), traceback.format_exc())
+        return
+    ctx.count('renumbered_after_adding_edge')
+    probs = dm.rpo_problems(n, succ2, 0, num2, order2)
+    if probs:
+        rec = dict(rec, added_edge=extra, num=[num2[i] for i in range(n)], rpo=order2)
+        for clause in sorted({c for c, _ in probs}):
+            ctx.fail('renumber:%s:%s' % (clause, 'catch' if k else 'plain'), rec,
+                     'after adding edge %r and calling compute_rpo() again: ' % (extra,) + '; '.join(d for c, d in probs if c == clause)[:600])
 
 
 NSPLIT4 = 16
